@@ -27,6 +27,7 @@ import io
 import itertools
 import math
 import sys
+import time
 from fractions import Fraction as F
 
 from . import common as C
@@ -298,6 +299,10 @@ def run_before(case, contest, cvrs):
             n2 = sum(kk for _, kk in case.get("c2types") or [])
             ct = U.Contest("c2", list(names), names[b["winner"]], max(1, n2))
             Rm.compute_raire_assertions(ct, cvrs, names[b["winner"]], asn_fn(b["bp"], case["exact"]), False, agap=0)
+        elif k == "case":          # a whole other case (replay of "the call made just before in the same process")
+            c2 = b["case"]
+            ct, cv = build_inputs(c2)
+            Rm.compute_raire_assertions(ct, cv, c2["names"][c2["winner"]], asn_fn(c2["bp"], c2["exact"]), False, agap=0)
         else:
             raise ValueError(k)
 
@@ -531,9 +536,25 @@ def exhaustive_cases(max_c=3, max_b=4, winners="all", dfuns=(False, True), hints
     return cases
 
 
+PREV = {"case": None}       # the case run just before in this process (recorded so that a leak between calls can be replayed)
+BUDGET = {"left": None}     # seconds of implementation time left for this check (set by c04.run / c15.run)
+
+
 def run_cases(cases, rng=None):
+    """Run the implementation on every case.  The whole check has a budget of implementation time: a change that
+    makes every call slower and slower (state accumulating across calls) must not stall it; the cases left over are
+    marked as not run, which breaks the correspondence (fail closed) without claiming that they fail."""
     for c in cases:
+        if BUDGET["left"] is not None and BUDGET["left"] <= 0:
+            c["impl"] = {"out": None, "exc": "ImplTimeout: skipped: implementation time budget of this check exhausted",
+                         "objs": None, "cvrs": {}, "position_in_process": CALLS["n"]}
+            continue
+        t0 = time.time()
+        c["prev"] = PREV["case"]
         c["impl"] = run_impl(c, rng)
+        PREV["case"] = c
+        if BUDGET["left"] is not None:
+            BUDGET["left"] -= time.time() - t0
     return cases
 
 
@@ -559,9 +580,18 @@ def case_lit(case):
             f"{case['winner']} {C.blit(case['bp'])} {C.blit(case['exact'])} {out}")
 
 
+def inputs_json(case):
+    return {"candidates": C.jsonable(case["names"]), "ballot_types(indices into candidates, multiplicity)":
+            [[list(b), k] for b, k in case["types"]], "cvrs_without_contest": case.get("nocontest", 0),
+            "tot_ballots": case["tot"], "winner_index": case["winner"], "asn_func": ("bp" if case["bp"] else "cp") +
+            ("_fraction" if case["exact"] else "_estimate"), "order_hint": case.get("order")}
+
+
 def case_json(case):
     o = case["impl"]
-    return {"candidates": C.jsonable(case["names"]), "ballot_types(indices into candidates, multiplicity)":
+    prev = case.get("prev")
+    return {"previous_call_in_this_process": inputs_json(prev) if prev is not None else None,
+            "candidates": C.jsonable(case["names"]), "ballot_types(indices into candidates, multiplicity)":
             [[list(b), k] for b, k in case["types"]], "cvrs_without_contest": case.get("nocontest", 0),
             "tot_ballots": case["tot"], "winner_index": case["winner"], "asn_func": ("bp" if case["bp"] else "cp") +
             ("_fraction" if case["exact"] else "_estimate"), "order_hint": case.get("order"),
@@ -585,6 +615,14 @@ def case_from_json(j):
             "c2types": [(tuple(x), k) for x, k in (j.get("second_contest_c2_on_same_cards") or [])] or None, "tag": "replay/" + "/".join((j.get("tag") or "").split("/")[1:])}
 
 
+def with_prev(j):
+    c = case_from_json(j)
+    pj = j.get("previous_call_in_this_process")
+    if pj:
+        c["before"] = [{"kind": "case", "case": case_from_json(pj)}] + (c["before"] or [])
+    return c
+
+
 def replay_cases(ctx):
     """The cases named by a replay file (failing-input or first disagreeing case), or None."""
     rp = getattr(ctx, "replay", None)
@@ -596,7 +634,7 @@ def replay_cases(ctx):
     for b in rp.get("no_longer_checks", []) + rp.get("broken_ties", []):
         if isinstance(b, dict) and isinstance(b.get("first_case"), dict):
             js.append(b["first_case"])
-    return [case_from_json(j) for j in js if "candidates" in j] or None
+    return [with_prev(j) for j in js if "candidates" in j] or None
 
 
 def digest(case):
